@@ -111,3 +111,30 @@ func (tracker *TxTracker) VerifShiftClocks(d time.Duration) {
 		tracker.txids[k] = v.Add(-d)
 	}
 }
+
+// VerifUntrusted is the projection of an untrusted connection's state.
+type VerifUntrusted struct {
+	Ver, Hsk, Hreq, Verified, Scored, AddrReq, MpReq bool
+}
+
+// VerifProject returns the flags of the untrusted connection under its own lock.
+func (state *UntrustedState) VerifProject() VerifUntrusted {
+	state.lock.Lock()
+	defer state.lock.Unlock()
+	return VerifUntrusted{Ver: state.versionReceived, Hsk: state.handshakeComplete, Hreq: state.headersRequested != nil,
+		Verified: state.verified, Scored: state.scoreUpdated, AddrReq: state.addressesRequested, MpReq: state.memPoolRequested}
+}
+
+// VerifShiftClocks moves the stored timestamps of the untrusted connection back by d.
+func (state *UntrustedState) VerifShiftClocks(d time.Duration) {
+	state.lock.Lock()
+	defer state.lock.Unlock()
+	if state.connectedTime != nil {
+		t := state.connectedTime.Add(-d)
+		state.connectedTime = &t
+	}
+	if state.headersRequested != nil {
+		t := state.headersRequested.Add(-d)
+		state.headersRequested = &t
+	}
+}
